@@ -1,6 +1,7 @@
 from fractions import Fraction
 import os
 """C04 - tilt carried as metadata is optically identical to tilt in the OPD."""
+from ..resilient import run_nested as _run_nested
 from .. import nf
 from ..nf import Poly, Tup, Const, Slice, NONE, TRUE, FALSE
 from ..model import AnalysisError
@@ -432,7 +433,7 @@ def run(chk, repo, tier):
     from .c06 import insert_rules as _insert_rules
     # the sub-pixel part reaches the transform through its shift argument, which is applied to the memoised coordinate vectors:
     # they stay as they were computed, or a repeated propagation of the same tilted pupil is evaluated about another origin
-    _c01.run_check(_Remap(chk, {'C01-a': 'C04-e', 'C01-d': 'C04-e', 'C01-j': 'C04-e'}), repo, tier)
+    _run_nested(_c01, _Remap(chk, {'C01-a': 'C04-e', 'C01-d': 'C04-e', 'C01-j': 'C04-e'}), repo, tier, fname='run_check')
     _insert_rules(chk, repo, 'C04-e')
     # segments displaced by their own tilts meet again in the output: where their windows touch they are one group
     chk.clause('C04-p', 'tilt-displaced segment fields are combined as the groups they form (reduce / group extents); each owns its transform', 3)
